@@ -15,7 +15,7 @@ import (
 
 func init() {
 	registerRenderReplayer("C04/programs-enum", "C04/reserved-loop", "C04/random-programs")
-	registerTreeReplayer("C04/components")
+	registerTreeReplayer("C04/components", "C04/layouts")
 }
 
 // c04Simple is the alphabet of simple statements of the enumeration.
@@ -273,6 +273,78 @@ func TestC04_Components(t *testing.T) {
 		nt := g.Feat["nested-assign"] > 0 && g.Feat["read"] > 0 || g.Feat["arg-named-like-visible"] > 0
 		classes := []string{"outcome:" + out.St.String(), fmt.Sprintf("components:%d", min(g.Feat["component"], 4))}
 		for _, f := range []string{"slot-body", "arg-named-like-visible", "nested-assign-to-visible", "type-collision"} {
+			if g.Feat[f] > 0 {
+				classes = append(classes, "has:"+f)
+			}
+		}
+		if out.St == refint.Unspec {
+			classes = append(classes, "unspecified:"+firstWords(out.Why, 4))
+		}
+		if out.St == refint.Err {
+			classes = append(classes, "error:"+firstWords(out.Why, 3))
+		}
+		c.Case(nt, mustJSON(cs.Files)+mustJSON(env.D), classes...)
+		if nt {
+			c.Sample(cs.sample())
+		}
+		if r, f := runTreeCase(c, cs); f != "" {
+			c.Fail(rt, kindOf(f), cs, cs.Want, r, f)
+		}
+	})
+}
+
+// TestC04_Layouts: an insert is not a block of its own - it runs in the block
+// that holds its reserve, and that block ends where it ends in the layout.
+func TestC04_Layouts(t *testing.T) {
+	c := harness.New(t, "C04", "layouts",
+		"template directories whose layout file is a generated block (assignments and reads over the assignable names, @if/@elseif/@else, @each, @for) with reserves at every nesting position - directly in a branch of an @if, in a loop body, in an @else, at top level - and whose page inserts, for each reserve, a generated block (assignments, reads, nested blocks, component uses), an expression, or nothing; the layout goes on reading and assigning after each reserve and reads every name at its end. Expected rendering or error from the reference scope chain: an insert's statements run in the block that holds the reserve, so what they bind is visible after the reserve inside that block and gone after the block's @end. Non-trivial: an insert at a nested position that assigns, with a read afterwards. Distinct by hash of files + data.")
+	defer c.Finish()
+	in := interp()
+	runRapid(t, c, 3000, 40000, func(rt *rapid.T) {
+		env := genProgEnv().Draw(rt, "data")
+		g := newProgGen(rt, env)
+		g.wIf, g.wLoop, g.wAssign, g.wCtl, g.wComp = 4, 2, 7, 0, 0
+		g.fewFailures = true
+		g.comps = refint.Files{}
+		g.wReserve = 3
+		layout := g.block(3, false)
+		if g.Feat["reserve-nested"] == 0 {
+			// at least one reserve directly inside a branch that runs
+			g.push()
+			body := append([]*tw.Stmt{g.mark()}, g.reserveStmt(2)...)
+			g.Feat["reserve-nested"]++
+			body = append(body, g.read())
+			g.pop()
+			if rapid.Bool().Draw(rt, "inElse") {
+				layout = append(layout, &tw.Stmt{Kind: tw.SIf, Branches: []tw.Branch{{Cond: tw.Bool(false), Body: []*tw.Stmt{g.mark()}}}, HasElse: true, Else: body})
+			} else {
+				layout = append(layout, &tw.Stmt{Kind: tw.SIf, Branches: []tw.Branch{{Cond: tw.Bool(true), Body: body}}})
+			}
+		}
+		unbound := rapid.IntRange(0, 3).Draw(rt, "readUnbound") == 0
+		for _, n := range assignNames {
+			if _, vis := g.visibleKind(n); vis || unbound {
+				layout = append(layout, tw.Text("|"), tw.Print(tw.Var(n)))
+				g.Feat["read"]++
+			}
+		}
+		page := []*tw.Stmt{{Kind: tw.SUse, Name: "~main"}}
+		inserts := rapid.Permutation(g.inserts).Draw(rt, "insertOrder")
+		for _, ins := range inserts {
+			page = append(page, tw.Text(rapid.SampledFrom([]string{"\n", "", " ignored ", "\r\n"}).Draw(rt, "between")), ins)
+		}
+		files := g.comps
+		files["layouts/main"] = layout
+		files["page"] = page
+		if le := refint.Validate(files); le != nil {
+			c.Class("harness:generated-tree-invalid:" + le.Why)
+			return
+		}
+		out, _ := in.RenderPage(files, "page", env.Model)
+		cs := treeCase{Files: printFiles(files, genLayout().Draw(rt, "layout")), Dir: "t", Ext: ".tw", Page: "page", Data: env.D, Want: wantFromOut(out)}
+		nt := g.Feat["insert-assigns-in-nested-block"] > 0 && g.Feat["read"] > 0
+		classes := []string{"outcome:" + out.St.String(), fmt.Sprintf("reserves:%d", min(g.Feat["reserve"], 4))}
+		for _, f := range []string{"reserve-nested", "reserve-not-inserted", "insert-assigns-in-nested-block", "component", "type-collision"} {
 			if g.Feat[f] > 0 {
 				classes = append(classes, "has:"+f)
 			}
